@@ -864,7 +864,7 @@ def model_trace_cmp(steps, mtrace, mapping):
 # ---------------------------------------------------------------------------------------------------------
 
 def norm_out(lines):
-    return [re.sub(r" @ 0x[0-9a-f]+", "", l) for l in lines]
+    return [re.sub(r" @ (0x[0-9a-f]+|ADDR)", "", l) for l in lines]
 
 
 def impl_outcome(rec):
